@@ -19,7 +19,7 @@ ASSUMPTIONS = ["whitespace-only / empty call-macro arguments are outside the qua
                "blank lines between a with-macro block and the next statement belong to the block (pinned by tests/test_with_macros.py)"]
 
 NAMES = ["x", "y1", "foo", "_a", "é", "import os", "if True", "lambda: 0", "not in", "x=10", "a b c", "1 + 2", "...", "->", "**kw", "*a", "a.b.c", "3.14", "0x1f", "yield", "for i in j"]
-STRS = ["'s'", '"oh my, kadavule!"', "'a,b'", '"(["', "'''t,r\ni'''", "r'\\d,'", "b'x'", "f'{a}'", "'\\''", '"]"', "'#no comment'", "p'/a,b'"]
+STRS = ['f"{x},{y}"', 'f","', 'f"{x},"', 'f"){x}("', 'f"]{x}["', "f'{x}}}{{'", 'f"{x:,}"', "f'''{a},\n{b}'''", "'s'", '"oh my, kadavule!"', "'a,b'", '"(["', "'''t,r\ni'''", "r'\\d,'", "b'x'", "f'{a}'", "'\\''", '"]"', "'#no comment'", "p'/a,b'"]
 XONSH = ["$X", "$(ls -l)", "![a b]", "@(x)", "${x + y}", "$[ls, -l]", "@$(which xonsh)", "!(a, b)", "`a,b`", "g`*.py`", "x?", "a && b", "$(echo (a, b))" if False else "$(echo a,b)"]
 OPS = [" + ", " - ", "*", " and ", " = ", ": ", " if ", " | ", ".", " ", "  ", " == ", " := ", " @ ", " // "]
 
